@@ -530,8 +530,15 @@ def part_comparator(check, cps, hp):
 
 	# strict weak order laws, directly on the Python comparator, all triples of small sets
 	sets = 12 if check.tier == 'quick' else 150
-	for _ in range(sets):
-		items = include_pool(rng, 12, rng.choice([0.0, 0.5, 1.0]))
+	# one include of every priority class of the comparator (first-level and second-level tables, the tests bonus, depth classes), always
+	lattice = [
+		'"a.h"', '"x/a.h"', '"src/a.h"', '"src/b/c.h"', '"mongo/a.h"', '"zeromq/a.h"', '"plugins/a.h"', '"plugins/b/c.h"', '"catapult/types.h"',
+		'"catapult/b/c.h"', '"symbol/a.h"', '"symbol/b/c.h"', '"symbol/extended/a.h"', '"symbol/extended/b/c.h"', '"symbol/txes/a.h"',
+		'"symbol/txes/b/c.h"', '"tests/a.h"', '"test/a.h"', '"plugins/tests/a.h"', '"symbol/extended/tests/a.h"', '"symbol/tests/a.h"',
+		'"catapult/tests/a.h"', '<vector>', '<boost/x.h>']
+	fixed_sets = [lattice[k:k + 12] for k in range(0, len(lattice), 6)] + [lattice[::2], lattice[1::2]]
+	for number in range(sets + len(fixed_sets)):
+		items = fixed_sets[number] if number < len(fixed_sets) else include_pool(rng, 12, rng.choice([0.0, 0.5, 1.0]))
 		matrix = [[py_lt(cps, hp, a, b) == 'T' for b in items] for a in items]
 		check.case('swo-triples', tuple(items))
 		problem = swo_problem(matrix, items)
